@@ -650,5 +650,169 @@ func streamCont(o *Out, r *rand.Rand, n int, thorough bool) {
 		sort.Strings(vars)
 		o.Case(req.String(), strings.Join(implOuts, " | ")+" || "+strings.Join(vars, " "), strings.Join(srcs, "\n"), true)
 	}
-	_ = reflect.TypeOf
+	// struct values made with make: fields hold their declared type, read back what was stored, unknown fields are errors
+	type contRec struct {
+		A int64
+		B string
+		C []int64
+		D map[string]int64
+		E float64
+		F bool
+		G interface{}
+	}
+	recT := reflect.TypeOf(contRec{})
+	for _, vsrc := range goconvValues {
+		if strings.HasPrefix(vsrc, "func") {
+			continue
+		}
+		val, err := vm.Execute(env.NewEnv(), nil, vsrc)
+		if err != nil {
+			continue
+		}
+		for fi := 0; fi < recT.NumField(); fi++ {
+			fld := recT.Field(fi)
+			e := env.NewEnv()
+			_ = e.DefineType("S", contRec{})
+			src := "err = false\nx = make(S)\ny = x\ntry {\nx." + fld.Name + " = " + vsrc + "\n} catch e {\nerr = true\n}\n[x." + fld.Name + ", err, x]"
+			res, rerr, p := execGuard(e, src)
+			o.Sum.Evaluations++
+			o.Sum.Hist["struct-field:"+fld.Type.String()]++
+			if p != nil {
+				o.Fail(Failure{Oracle: "no-panic", Key: "cont-panic:struct-field", Input: src, Detail: fmt.Sprint(p)})
+				continue
+			}
+			tr, isList := res.([]interface{})
+			if rerr != nil || !isList || len(tr) != 3 {
+				o.Fail(Failure{Oracle: "struct-fields", Key: "cont-struct-run", Input: src, Detail: fmt.Sprintf("result %v err %v", res, rerr)})
+				continue
+			}
+			failed, _ := tr[1].(bool)
+			want, ok := refConvert(reflect.ValueOf(val), fld.Type)
+			got := reflect.ValueOf(tr[0])
+			switch {
+			case ok && failed:
+				o.Fail(Failure{Oracle: "struct-fields", Key: "cont-struct-rejected:" + fld.Type.String(), Input: src, Detail: "Go converts the value to " + fld.Type.String() + " but the field store failed"})
+			case !ok && !failed:
+				o.Fail(Failure{Oracle: "struct-fields", Key: "cont-struct-accepted:" + fld.Type.String(), Input: src, Detail: "no Go conversion exists but the field store succeeded: " + renderTyped(got)})
+			case ok && renderTyped(got) != renderTyped(want):
+				o.Fail(Failure{Oracle: "struct-fields", Key: "cont-struct-value:" + fld.Type.String(), Input: src, Detail: fmt.Sprintf("field reads back %s, stored %s", renderTyped(got), renderTyped(want))})
+			case !ok && renderTyped(got) != renderTyped(reflect.Zero(fld.Type)):
+				o.Fail(Failure{Oracle: "struct-fields", Key: "cont-struct-error-mutates:" + fld.Type.String(), Input: src, Detail: "failed store changed the field to " + renderTyped(got)})
+			}
+			if reflect.TypeOf(tr[2]) != recT && reflect.TypeOf(tr[2]) != reflect.PtrTo(recT) {
+				o.Fail(Failure{Oracle: "struct-fields", Key: "cont-struct-type", Input: src, Detail: fmt.Sprintf("the struct value is now a %T", tr[2])})
+			}
+		}
+	}
+	for _, c := range []struct{ src, want string }{
+		{"x = make(S)\nx.Nope = 1", "ERROR"}, {"x = make(S)\nx.Nope", "ERROR"}, {"x = make(S)\nx.A = 3\nx.A", "int64:3"},
+		{"x = make(S)\nx.C = [1, 2]\nx.C[1]", "int64:2"}, {"x = make(S)\nx.D = {\"a\": 1}\nx.D.a", "int64:1"}, {"x = make(S)\nx.G = [1]\nx.G", "[]iface[int64:1]"},
+	} {
+		e := env.NewEnv()
+		_ = e.DefineType("S", contRec{})
+		res, rerr, p := execGuard(e, c.src)
+		got := "ERROR"
+		if rerr == nil {
+			got = renderTyped(reflect.ValueOf(res))
+		}
+		o.Sum.Evaluations++
+		if p != nil || got != c.want {
+			o.Fail(Failure{Oracle: "struct-fields", Key: "cont-struct-template", Input: c.src, Detail: fmt.Sprintf("expected %s, got %s (err %v, panic %v)", c.want, got, rerr, p)})
+		}
+	}
+	// typed containers: a store converts the value as Go would or fails leaving the old content
+	typed := []struct {
+		name string
+		t    reflect.Type
+	}{
+		{"int64", reflect.TypeOf(int64(0))}, {"int32", reflect.TypeOf(int32(0))}, {"uint32", reflect.TypeOf(uint32(0))}, {"uint64", reflect.TypeOf(uint64(0))}, {"rune", reflect.TypeOf(rune(0))}, {"byte", reflect.TypeOf(uint8(0))},
+		{"int", reflect.TypeOf(int(0))}, {"float64", reflect.TypeOf(float64(0))}, {"float32", reflect.TypeOf(float32(0))}, {"string", reflect.TypeOf("")},
+		{"bool", reflect.TypeOf(true)}, {"interface", ifaceT}, {"[]int64", reflect.TypeOf([]int64{})}, {"[]string", reflect.TypeOf([]string{})},
+		{"map[string]int64", reflect.TypeOf(map[string]int64{})},
+	}
+	for vi, vsrc := range goconvValues {
+		if strings.HasPrefix(vsrc, "func") {
+			continue
+		}
+		val, err := vm.Execute(env.NewEnv(), nil, vsrc)
+		if err != nil {
+			continue
+		}
+		_ = vi
+		for _, ty := range typed {
+			want, ok := refConvert(reflect.ValueOf(val), ty.t)
+			forms := []struct{ name, src string }{
+				{"slice-store", "err = false\nt = make([]" + ty.name + ", 2)\ntry {\nt[1] = " + vsrc + "\n} catch e {\nt[0] = t[0]\nerr = true\n}\n[t, err]"},
+				{"slice-append-at-len", "err = false\nt = make([]" + ty.name + ", 1)\ntry {\nt[1] = " + vsrc + "\n} catch e {\nerr = true\n}\n[t, err]"},
+				{"slice-plus", "err = false\nt = make([]" + ty.name + ", 1)\ntry {\nt += " + vsrc + "\n} catch e {\nerr = true\n}\n[t, err]"},
+				{"map-store", "err = false\nt = make(map[string]" + ty.name + ")\ntry {\nt[\"k\"] = " + vsrc + "\n} catch e {\nerr = true\n}\n[t, err]"},
+				{"map-member-store", "err = false\nt = make(map[string]" + ty.name + ")\ntry {\nt.k = " + vsrc + "\n} catch e {\nerr = true\n}\n[t, err]"},
+			}
+			for _, f := range forms {
+				if f.name == "slice-plus" && reflect.ValueOf(val).IsValid() && reflect.ValueOf(val).Kind() == reflect.Slice {
+					continue // slice + slice appends the elements: a different operation
+				}
+				res, rerr, p := execGuard(env.NewEnv(), f.src)
+				o.Sum.Evaluations++
+				o.Sum.Hist["typed:"+f.name]++
+				in := f.src
+				if p != nil {
+					o.Fail(Failure{Oracle: "no-panic", Key: "cont-panic:typed-" + f.name, Input: in, Detail: fmt.Sprint(p)})
+					continue
+				}
+				pair, isPair := res.([]interface{})
+				if rerr != nil || !isPair || len(pair) != 2 {
+					o.Fail(Failure{Oracle: "typed-container", Key: "cont-typed-run:" + f.name, Input: in, Detail: fmt.Sprintf("result %v err %v", res, rerr)})
+					continue
+				}
+				failed, _ := pair[1].(bool)
+				cont := reflect.ValueOf(pair[0])
+				// the container keeps its declared type whatever happened
+				wantContT := reflect.SliceOf(ty.t)
+				if strings.HasPrefix(f.name, "map") {
+					wantContT = reflect.MapOf(reflect.TypeOf(""), ty.t)
+				}
+				if cont.Type() != wantContT {
+					o.Fail(Failure{Oracle: "typed-container", Key: "cont-typed-type:" + f.name, Input: in, Detail: fmt.Sprintf("container of declared type %s is now a %s", wantContT, cont.Type())})
+					continue
+				}
+				var stored reflect.Value
+				present := true
+				switch f.name {
+				case "slice-store":
+					stored = cont.Index(1)
+				case "slice-append-at-len", "slice-plus":
+					present = cont.Len() == 2
+					if present {
+						stored = cont.Index(1)
+					}
+				default:
+					stored = cont.MapIndex(reflect.ValueOf("k"))
+					present = stored.IsValid()
+				}
+				switch {
+				case ok && failed:
+					o.Fail(Failure{Oracle: "typed-container", Key: "cont-typed-rejected:" + f.name, Input: in, Detail: fmt.Sprintf("Go converts the value to %s (%s) but the store failed", ty.t, renderTyped(want))})
+				case !ok && !failed:
+					o.Fail(Failure{Oracle: "typed-container", Key: "cont-typed-accepted:" + f.name, Input: in, Detail: fmt.Sprintf("no Go conversion to %s exists but the store succeeded; container now %s", ty.t, renderTyped(cont))})
+				case ok && (!present || renderTyped(stored) != renderTyped(want)):
+					o.Fail(Failure{Oracle: "typed-container", Key: "cont-typed-value:" + f.name, Input: in, Detail: fmt.Sprintf("stored value should be %s, container now %s", renderTyped(want), renderTyped(cont))})
+				case !ok:
+					// the old content must be intact
+					old := true
+					switch f.name {
+					case "slice-store":
+						old = cont.Len() == 2 && renderTyped(cont.Index(1)) == renderTyped(reflect.Zero(ty.t))
+					case "slice-append-at-len", "slice-plus":
+						old = cont.Len() == 1
+					default:
+						old = cont.Len() == 0
+					}
+					if !old {
+						o.Fail(Failure{Oracle: "typed-container", Key: "cont-typed-error-mutates:" + f.name, Input: in, Detail: "the failed store changed the container: " + renderTyped(cont)})
+					}
+				}
+			}
+		}
+	}
 }
